@@ -170,8 +170,8 @@ def step(w: World, ev: Ev, cuts: bool, lag: int = 0) -> t.Tuple[t.Optional[World
         except L.LDAPError:
             # the application learns that the call is not accepted by trying it: the attempt happens on
             # the real session and must leave it as it was (checked observationally at quiescent states)
-            if w2.c.data_to_send():
-                return w2, (f"refused-call-left-bytes:client:{name}", f"refused client call {name} queued bytes")
+            if copy.deepcopy(w2.c).data_to_send() != copy.deepcopy(w.c).data_to_send():
+                return w2, (f"refused-call-left-bytes:client:{name}", f"refused client call {name} changed the queued bytes")
             return w2, ("__refused__", "")
         out = w2.c.data_to_send(lag) if lag else w2.c.data_to_send()
         if name != "unbind":
@@ -183,8 +183,8 @@ def step(w: World, ev: Ev, cuts: bool, lag: int = 0) -> t.Tuple[t.Optional[World
         try:
             SERVER_CALLS[name][0](w2.s, i)
         except L.LDAPError:
-            if w2.s.data_to_send():
-                return w2, (f"refused-call-left-bytes:server:{name}", f"refused server call {name} queued bytes")
+            if copy.deepcopy(w2.s).data_to_send() != copy.deepcopy(w.s).data_to_send():
+                return w2, (f"refused-call-left-bytes:server:{name}", f"refused server call {name} changed the queued bytes")
             return w2, ("__refused__", "")
         out = w2.s.data_to_send(lag) if lag else w2.s.data_to_send()
         w2.s2c += frags(out, cuts) if not lag else ([out] if out else [])
